@@ -1,3 +1,172 @@
-Require Import C12_Model.
-Theorem placeholder : True. Proof. exact I. Qed.
-Print Assumptions placeholder.
+(* C12 - every pose reachable through the API stays well-formed and serialisable.
+   Model: model/C12_Model.v (abstract pose state + operation language; F11, F7/F8 as repaired).
+   [Inv] (proofs/C12_Inv.v): header non-empty, every component has format length D+1, body shape
+   (F, P, total header points, D), confidence shape (F, P, total header points), and a cell is masked - in every
+   dimension - iff its confidence is zero.  [pre] holds the property's preconditions the invariant depends on
+   (selection keeps a component; normalisation's reference points observed; non-zero deviation); the remaining ones
+   (two frames for interpolation, an observed point for focus, valid arguments) make [step] return [Err]. *)
+From Coq Require Import String List Arith Bool ZArith NArith.
+Require Import ListN Result Bytes F32 Tensor Codec.
+Require Import C12_Model C12_Tab C12_Inv C12_Reach C12_Ser C12_Progress C12_Examples C12_GenTie Gen_C12.
+Import ListNotations.
+Open Scope nat_scope.
+
+(* ---- clause 1-3: one step, then any number of steps (no length bound) ---- *)
+Theorem inv_preserved : forall st o st', Inv st -> pre st o = true -> step st o = Ok st' -> Inv st'.
+Proof. exact C12_Reach.inv_preserved. Qed.
+Print Assumptions inv_preserved.
+
+Theorem reachable_inv : forall s0 st, Inv s0 -> reachable s0 st -> Inv st.
+Proof. exact C12_Reach.reachable_inv. Qed.
+Print Assumptions reachable_inv.
+
+Theorem run_inv : forall ops st st', Inv st -> run st ops = Ok st' -> Inv st'.
+Proof. exact C12_Reach.run_inv. Qed.
+Print Assumptions run_inv.
+
+(* well-formed start poses: whatever the NumPy constructor builds over a header with equal format lengths *)
+Theorem start_state_inv : forall h F P T D cz st,
+  h <> [] -> Forall (fun c => c_fmt c = S D) h -> total_points h = T -> length cz = F * P * T ->
+  start_state h F P T D cz = Ok st -> Inv st.
+Proof. exact C12_Reach.start_state_inv. Qed.
+Print Assumptions start_state_inv.
+
+(* [Inv] gives the statement's wording: header dims (max format length - 1) and header points are the body's *)
+Theorem inv_as_stated : forall st, Inv st -> exists F P D, num_dims (s_hdr st) = Some (Z.of_nat D) /\
+  shape (s_mask st) = [F; P; total_points (s_hdr st); D] /\ shape (s_cz st) = [F; P; total_points (s_hdr st)].
+Proof. exact C12_Reach.inv_num_dims. Qed.
+Print Assumptions inv_as_stated.
+
+(* the predicate the runner evaluates after every step is the invariant *)
+Theorem invb_sound : forall st, invb st = true -> Inv st.
+Proof. exact C12_Reach.invb_sound. Qed.
+Print Assumptions invb_sound.
+Theorem invb_complete : forall st, Inv st -> invb st = true.
+Proof. exact C12_Examples.invb_complete. Qed.
+Print Assumptions invb_complete.
+
+(* ---- no exception under the property's preconditions (NumPy bodies; selection's name arguments excepted: C11) ---- *)
+Theorem progress_np : forall st o, Inv st -> s_be st = Np -> expects_ok_np st o = true -> exists st', step st o = Ok st'.
+Proof. exact C12_Progress.progress_np. Qed.
+Print Assumptions progress_np.
+Example bbox_3d_ok : Inv ex3_st /\ s_be ex3_st = Np /\ expects_ok_np ex3_st BBox = true
+                     /\ exists st', step ex3_st BBox = Ok st' /\ Inv st' /\ shape (s_mask st') = [2; 1; 4; 3].
+Proof. exact C12_Examples.bbox_3d_ok. Qed.
+Print Assumptions bbox_3d_ok.
+
+(* ---- clause 4 (NumPy bodies): serialisable.  Against Codec.write_pose (model of Pose.write): all four sanity checks
+   pass for every concrete pose over a reachable state, and the mask a reader derives from the written confidences
+   (Codec.mk_body, float32 zero test) is the pose's mask.  PARTIAL: that decoding the written bytes returns the
+   float32-rounded values themselves is C01's write_read_roundtrip (props/C01.v), not re-proved here. *)
+Theorem reachable_serialisable_partial : forall s0 st wp,
+  Inv s0 -> reachable s0 st -> abstracts st wp ->
+  write_pose wp = (do h <- write_header (w_dims wp) (w_comps wp); do b <- write_body wp; Ok (h ++ b)%list)
+  /\ forall F P T D, shape (s_mask st) = [F; P; T; D] ->
+     forall fps dat b, mk_body fps (N.of_nat F) (N.of_nat P) (N.of_nat T) (Z.of_nat D) dat (map f64_to_f32 (w_conf wp)) = Ok b ->
+     forall f p t d, f < F -> p < P -> t < T -> d < D ->
+       get4 (s_mask st) f p t d = nth (ravel [F; P; T] [f; p; t]) (b_mask b) false.
+Proof. exact C12_Ser.reachable_serialisable. Qed.
+Print Assumptions reachable_serialisable_partial.
+
+(* ---- non-vacuity ---- *)
+Example ex_start : start_state ex_hdr 3 1 3 2 ex_cz = Ok ex_st /\ Inv ex_st.
+Proof. exact C12_Examples.ex_start. Qed.
+Print Assumptions ex_start.
+Example ex_run : exists st', run ex_st ex_ops = Ok st' /\ reachable ex_st st' /\ Inv st' /\ s_be st' = Torch /\ shape (s_mask st') = [2; 1; 2; 2].
+Proof. exact C12_Examples.ex_run. Qed.
+Print Assumptions ex_run.
+Example ex_tf : exists st', run ex_st [ToTensorflow; Normalize 0 1; NormalizeDistribution false [false; false]; SliceStep (-1)%Z; DropoutNormal []] = Ok st'
+                            /\ Inv st' /\ s_be st' = Tf.
+Proof. exact C12_Examples.ex_tf. Qed.
+Print Assumptions ex_tf.
+Example ex_abstracts : abstracts ex_st ex_wp.
+Proof. exact C12_Examples.ex_abstracts. Qed.
+Print Assumptions ex_abstracts.
+Example ex_serialisable : exists bs, write_pose ex_wp = Ok bs /\ bs <> [].
+Proof. exact C12_Examples.ex_serialisable. Qed.
+Print Assumptions ex_serialisable.
+
+(* ---- the preconditions are needed (each operation *can* leave mask and confidence disagreeing outside them) ---- *)
+Example normalize_needs_observed_points :
+  exists st', Inv ex2_st /\ pre ex2_st (Normalize 1 2) = false /\ step ex2_st (Normalize 1 2) = Ok st' /\ ~ Inv st'.
+Proof. exact C12_Examples.normalize_needs_observed_points. Qed.
+Print Assumptions normalize_needs_observed_points.
+Example normalize_distribution_needs_deviation :
+  exists st', Inv ex_st /\ step ex_st (NormalizeDistribution true [false; true; false; false; false; false]) = Ok st' /\ ~ Inv st'.
+Proof. exact C12_Examples.normalize_distribution_needs_deviation. Qed.
+Print Assumptions normalize_distribution_needs_deviation.
+Example selection_needs_a_component :
+  exists st', step ex_st (GetComponents [] None) = Ok st' /\ ~ Inv st' /\ num_dims (s_hdr st') = None.
+Proof. exact C12_Examples.selection_needs_a_component. Qed.
+Print Assumptions selection_needs_a_component.
+
+(* ---- refuted for headers mixing format lengths: the invariant as literally stated (header dims = max format
+   length - 1) is not preserved by selection; hence "equal format lengths" in [Inv] (2-D poses, 3-D poses) ---- *)
+Theorem selection_mixed_formats_refuted :
+  exists st o st', inv_stmt_b st = true /\ pre st o = true /\ step st o = Ok st' /\ inv_stmt_b st' = false
+                   /\ num_dims (s_hdr st') = Some 2%Z /\ shape (s_mask st') = [1; 1; 1; 3].
+Proof. exact C12_Examples.selection_mixed_formats_refuted. Qed.
+Print Assumptions selection_mixed_formats_refuted.
+
+(* ---- ties to the facts regenerated from the source on this run (gen/Gen_C12.v) ---- *)
+Theorem pass_through_tie : map nm Gen_C12.pass_through_methods = C12_Model.pass_through_methods.
+Proof. exact C12_GenTie.pass_through_tie. Qed.
+Print Assumptions pass_through_tie.
+Theorem pass_through_ops_tie :
+  map meth_name [M_augment2d; M_flip; M_interpolate; M_slice_step; M_tensorflow; M_torch] = map nm Gen_C12.pass_through_methods.
+Proof. exact C12_GenTie.pass_through_ops_tie. Qed.
+Print Assumptions pass_through_ops_tie.
+Theorem header_attrs_tie : map nm Gen_C12.header_attrs = C12_Model.header_attrs.
+Proof. exact C12_GenTie.header_attrs_tie. Qed.
+Print Assumptions header_attrs_tie.
+Theorem dispatcher_keeps_header :
+  forallb (fun m => negb (mem (nm m) (map nm Gen_C12.header_attrs))) Gen_C12.pass_through_methods = true.
+Proof. exact C12_GenTie.dispatcher_keeps_header. Qed.
+Print Assumptions dispatcher_keeps_header.
+Theorem box_points_tie : map nm Gen_C12.box_points = C12_Model.box_points.
+Proof. exact C12_GenTie.box_points_tie. Qed.
+Print Assumptions box_points_tie.
+Theorem bbox_rows_tie : length Gen_C12.bbox_stack = bbox_rows /\ length Gen_C12.box_points = bbox_rows.
+Proof. exact C12_GenTie.bbox_rows_tie. Qed.
+Print Assumptions bbox_rows_tie.
+Theorem points_dims_tie : Gen_C12.points_dims = [2; 1; 0; 3] /\ Gen_C12.confidence_reshape = [2; 1; 0].
+Proof. exact C12_GenTie.points_dims_tie. Qed.
+Print Assumptions points_dims_tie.
+Theorem numpy_mask_rule_tie :
+  Gen_C12.numpy_mask_rule = ["=="; "0"; "data.shape[-1]"]%string /\ Gen_C12.numpy_body_init_guard = ["isinstance(data, np.ndarray)"]%string.
+Proof. exact C12_GenTie.numpy_mask_rule_tie. Qed.
+Print Assumptions numpy_mask_rule_tie.
+Theorem torch_mask_rule_tie : Gen_C12.torch_mask_rule = ["!="; "0"; "data.shape[-1]"]%string.
+Proof. exact C12_GenTie.torch_mask_rule_tie. Qed.
+Print Assumptions torch_mask_rule_tie.
+Theorem tf_mask_rule_tie : Gen_C12.tf_mask_rule = ["!="; "0"; "data.shape[-1]"]%string.
+Proof. exact C12_GenTie.tf_mask_rule_tie. Qed.
+Print Assumptions tf_mask_rule_tie.
+Theorem pose_write_checks_tie :
+  Gen_C12.pose_write_checks =
+    ["len(self.body.data.shape) != 4"; "header_dims != body_dims"; "header_points != body_points";
+     "tuple(self.body.confidence.shape) != tuple(self.body.data.shape[:3])"]%string.
+Proof. exact (proj1 C12_GenTie.pose_write_checks_tie). Qed.
+Print Assumptions pose_write_checks_tie.
+Theorem pose_bbox_tie : Gen_C12.pose_bbox =
+  ["body = self.body.bbox(self.header)"; "header = self.header.bbox()"; "return Pose(header=header, body=body)"]%string.
+Proof. exact C12_GenTie.pose_bbox_tie. Qed.
+Print Assumptions pose_bbox_tie.
+Theorem transcribed_methods_tie :
+  Gen_C12.pose_getattr = C12_GenTie.getattr_literal /\ Gen_C12.bbox_stack = ["ma.min(c, axis=0)"; "ma.max(c, axis=0)"]%string
+  /\ Gen_C12.header_bbox_component_args = ["c.name"; "box_points"; "box_limbs"; "box_colors"; "c.format"]%string
+  /\ Gen_C12.header_total_points = ["return sum(map(lambda c: len(c.points), self.components))"]%string
+  /\ Gen_C12.header_num_dims = ["return max([len(c.format) for c in self.components]) - 1"]%string
+  /\ Gen_C12.pose_copy = ["return self.__class__(self.header, self.body.copy())"]%string
+  /\ Gen_C12.body_slice_step = C12_GenTie.slice_step_literal /\ Gen_C12.body_select_frames = C12_GenTie.select_frames_literal
+  /\ Gen_C12.body_frame_dropout_given_percent = C12_GenTie.dropout_literal
+  /\ Gen_C12.numpy_body_flip = C12_GenTie.flip_literal /\ Gen_C12.numpy_body_get_points = C12_GenTie.get_points_literal
+  /\ Gen_C12.numpy_body_matmul = ["data = ma.dot(self.data, matrix)"; "return NumPyPoseBody(self.fps, data, self.confidence)"]%string
+  /\ Gen_C12.numpy_body_copy = ["return type(self)(fps=self.fps, data=self.data.copy(), confidence=self.confidence.copy())"]%string.
+Proof. exact C12_GenTie.transcribed_methods_tie. Qed.
+Print Assumptions transcribed_methods_tie.
+Theorem in_place_methods_tie :
+  Gen_C12.pose_focus = C12_GenTie.focus_literal /\ Gen_C12.pose_normalize = C12_GenTie.normalize_literal
+  /\ Gen_C12.pose_normalize_distribution = C12_GenTie.normalize_distribution_literal.
+Proof. exact C12_GenTie.in_place_methods_tie. Qed.
+Print Assumptions in_place_methods_tie.
